@@ -91,19 +91,22 @@ where
 {
   fn next(&mut self, value: Item) {
     if self.edge.leading || self.edge.tailing {
-      if self.edge.tailing {
-        *self.trailing_value.rc_deref_mut() = Some(value.clone());
-      }
       if self.task_handler.is_closed() {
         let delay = (self.duration_selector)(&value);
         if self.edge.leading {
+          // delivered on the leading edge, so it must not become the
+          // trailing value of its own window as well.
           self.observer.next(value)
+        } else {
+          *self.trailing_value.rc_deref_mut() = Some(value);
         }
         let task = OnceTask::new(
           throttle_task,
           (self.observer.clone(), self.trailing_value.clone()),
         );
         self.task_handler = self.scheduler.schedule(task, Some(delay));
+      } else if self.edge.tailing {
+        *self.trailing_value.rc_deref_mut() = Some(value);
       }
     }
   }
